@@ -233,19 +233,25 @@ theorem rinv_step {cfg : Cfg} {s s' : St} (e : Ev) (h : RInv cfg s) (hs : stepR 
       · cases hs
     · cases hs
   | remove id =>
-    simp only [stepR, step] at hs
+    simp only [stepR] at hs
     split at hs
     · cases hs
-    · cases hs
-      refine ⟨hw, hd, h1, ?_, ?_⟩
-      · intro e he
-        exact hc e (List.mem_filter.mp he).1
-      · intro e he
-        simp only [List.mem_append, List.mem_filter] at he
-        rcases he with h2 | h2
-        · exact ho e h2.1
-        · have := hc e h2.1
-          exact ⟨by omega, closedLast_of_not_mem _ this.2⟩
+    · split at hs
+      · rename_i c hcid
+        cases hs
+        obtain ⟨i0, hi0⟩ := chanOf_mem hcid
+        have hcc := hc _ hi0
+        refine ⟨hw, hd, h1, ?_, ?_⟩
+        · intro e he
+          exact hc e (List.mem_filter.mp he).1
+        · intro e he
+          simp only [List.mem_append, List.mem_filter, List.mem_singleton] at he
+          rcases he with h2 | h2
+          · exact ho e h2.1
+          · subst h2
+            have hl : c.queue.length ≤ cfg.cap := hcc.1
+            exact ⟨by simp; omega, closedLast_of_not_mem _ hcc.2⟩
+      · cases hs; exact ⟨hw, hd, h1, hc, ho⟩
   | add id =>
     simp only [stepR] at hs
     split at hs
@@ -403,14 +409,16 @@ theorem c12_addcallback_never_waits (cfg : Cfg) (s : St) (id : String) (hw : s.w
       simp only [chanOf] at hc ⊢
       simp only [Option.map_eq_none_iff] at hc
       simp [List.find?_append, hc]
-  · refine ⟨{ s with chans := s.chans.filter (·.1 != id),
-                     orphans := s.orphans.filter (·.1 != id) ++ s.chans.filter (·.1 == id) },
-      by simp [stepR, step, hw, hp], hw, hp, ?_⟩
-    simp only [chanOf, Option.map_eq_none_iff]
-    rw [List.find?_eq_none]
-    intro x hx
-    have := (List.mem_filter.mp hx).2
-    simpa using this
+  · cases hc : chanOf s id with
+    | some c =>
+      refine ⟨{ s with chans := s.chans.filter (·.1 != id), orphans := s.orphans.filter (·.1 != id) ++ [(id, c)] },
+        by simp [stepR, hp, hc], hw, hp, ?_⟩
+      simp only [chanOf, Option.map_eq_none_iff]
+      rw [List.find?_eq_none]
+      intro x hx
+      have := (List.mem_filter.mp hx).2
+      simpa using this
+    | none => exact ⟨s, by simp [stepR, hp, hc], hw, hp, hc⟩
 
 /-! ### C11: a dispatch reaches the consumer or ends it -/
 
@@ -509,7 +517,7 @@ theorem c11_table_frozen_during_put (cfg : Cfg) (s s' : St) (e : Ev) (hne : s.pu
       · cases hs; rfl
       · cases hs
     · cases hs
-  | remove id => simp [stepR, step, hemp] at hs
+  | remove id => simp [stepR, hemp] at hs
   | add id => simp [stepR, hemp] at hs
   | addResume => simp [stepR] at hs
 
